@@ -104,6 +104,24 @@ def resolve_hashers(te, t):
 
 def apply_closure(prog, clo, arg=None, arg2=None):
     """closure literal applied to `arg` (None for a zero-argument closure): its result term, or None"""
+    c0 = _peel(clo)
+    if isinstance(c0, tuple) and c0 and c0[0] == "fnref" and arg is not None:
+        # a function item used as a callback: an enum variant constructor (`.map(BddPtr::Reg)`) or a local function
+        cal = c0[1]
+        path = cal.def_ or cal.res or ""
+        if "::" in path:
+            adt, var = path.rsplit("::", 1)
+            a = prog.adts.get(mir.norm(adt)) or prog.adts.get(adt)
+            if a and any(v["name"] == var for v in a.get("variants", [])):
+                ops = (arg,) if arg2 is None else (arg, arg2)
+                return ("agg", "adt", mir.norm(adt), var, ops, tuple(str(i) for i in range(len(ops))))
+        hs = [h for h in prog.resolve(cal) if "{closure" not in h.npath]
+        if len(hs) == 1 and hs[0].terms.ret is not None and not has_unknown(hs[0].terms.ret):
+            ps = {1: arg}
+            if arg2 is not None:
+                ps[2] = arg2
+            return subst(resolve_hashers(hs[0].terms, hs[0].terms.ret), ps)
+        return ("call", cal, (arg,) if arg2 is None else (arg, arg2))
     f, clo = closure_fn(prog, clo)
     if f is None or f.terms.ret is None:
         return None
@@ -609,3 +627,16 @@ def paths_under(fn, x, vname, preds=PTR_PREDICATES, max_paths=64, with_conds=Fal
     except (OverflowError, RecursionError):
         return None
     return results
+
+
+def project(t):
+    """tuple{a, b}.0 -> a and array{a, b}[0] -> a, recursively"""
+    if not isinstance(t, tuple) or not t:
+        return t
+    if t[0] == "call":
+        return (t[0], t[1], tuple(project(a) for a in t[2])) + tuple(t[3:])
+    t = tuple(project(a) if isinstance(a, tuple) else a for a in t)
+    if t[0] == "field" and isinstance(t[1], tuple) and t[1] and strip(t[1])[0] == "agg" and strip(t[1])[1] in ("tuple", "array") and \
+            str(t[2]).isdigit() and int(t[2]) < len(strip(t[1])[4]):
+        return strip(t[1])[4][int(t[2])]
+    return t
